@@ -46,6 +46,21 @@ func init() {
 					out = append(out, sp("C18", fmt.Sprintf("cell/%s/%s%s/%s", confLabel(c), c["launch"], c["xlate"]+c["usc"], hist), seed, cp(c, "hist", hist)))
 				}
 			}
+			// two hosts (the launching one and a reattached one) shut the same gRPC
+			// plugin down at the same moment while it still holds brokered listeners
+			nt := 30
+			if tier == "thorough" {
+				nt = 1500
+			}
+			for v := 0; v < nt; v++ {
+				s := sp("C18", fmt.Sprintf("two-hosts-kill/%d", v), seed+uint64(v+1)*7919, P("proto", "grpc", "launch", "cmd", "hist", "twohosts"))
+				if v >= 4 {
+					s.HotPermille, s.DelayClass = 150, "tiny"
+					s.Focus = "GRPCServer.Stop,GRPCServer.closeBroker,GRPCBroker.Close,grpc_controller.go"
+					s.Wake = []int{0, 300, 900}[v%3]
+				}
+				out = append(out, s)
+			}
 			n := 500
 			if tier == "thorough" {
 				n = 100000
@@ -135,6 +150,8 @@ func runC18(r *h.Run) {
 	switch hist {
 	case "full":
 		steps = []string{"dispense", "call", "h2p", "p2h", "stdio", "ping", "stream", "h2p", "p2h", "acceptonly", "acceptonly", "acceptonly", "hostacceptonly", "hostacceptonly"}
+	case "twohosts":
+		steps = []string{"acceptonly", "acceptonly", "acceptonly", "h2p", "call"}
 	case "random":
 		all := []string{"dispense", "call", "h2p", "p2h", "stdio", "ping", "stream", "acceptonly", "hostacceptonly"}
 		n := w.Range("steps/n", 9)
@@ -187,7 +204,29 @@ func runC18(r *h.Run) {
 		}
 	}
 	plug := w.ProcByName("plugin")
-	s.kill()
+	if hist == "twohosts" {
+		rc := s.cl.ReattachConfig()
+		if rc == nil {
+			r.Violate("setup", "no reattach config "+ctx, "")
+			return
+		}
+		b := reattachClient(r, c.Proto, rc, "hostB")
+		if o := r.DoNoHang("B.Client", 60*time.Second, ctx, func() (any, error) { return b.Client() }); o.Err != nil || o.Hung {
+			r.Violate("setup", "second host "+ctx, fmt.Sprint(o.Err))
+			return
+		}
+		var wg sync.WaitGroup
+		wg.Add(1)
+		go k.Trap(func() {
+			defer wg.Done()
+			r.DoNoHang("B.Kill", 120*time.Second, ctx, func() (any, error) { b.Kill(); return nil, nil })
+		})
+		time.Sleep(time.Duration(w.Range("twohosts/offset", 4)) * 200 * time.Microsecond)
+		s.kill()
+		wg.Wait()
+	} else {
+		s.kill()
+	}
 	time.Sleep(10 * time.Second)
 	if plug != nil && plug.GotKill {
 		// not a graceful exit: the property does not apply (C04 judges whether it should have been)
